@@ -106,11 +106,14 @@ SoftwareNorm(set, got) == LET n == Min(Len(set), Len(got)) IN
 Keep(e) == [k \in (DOMAIN e \ {"s", "i", "h", "st", "flen", "err", "ret", "io", "op"}) |-> e[k]]
 MetaKey(e) == IF e.op \in {"setstr", "getstr"} THEN <<"str", e.type>> ELSE <<e.kind>>
 
+\* the library keeps broadcast and cart items in fixed 16 KiB structures: an item whose variable part goes beyond that may be refused
+\* (and, being refused, must leave what was stored before untouched: SetMetaPost keeps the model's item, GetMetaOK compares after re-open)
+MetaTooBig(e) == e.kind \in {"bext", "cart"} /\ e.n > 16000
 SetMetaOK(s, e) ==
     /\ SamePos(s, ObsOf(e))
     /\ (s.mode # SFM_READ /\ ~s.hw /\ ~s.relax) =>
           IF e.op = "setstr" THEN (e.type \in StrTypes(Major(s.fmt)) /\ Len(e.text) > 0) => e.ret = 0
-          ELSE (Supports(Major(s.fmt), e.kind) /\ e.kind # "chmap") => e.ret = 1      \* (a channel map must also fit a layout the container knows)
+          ELSE (Supports(Major(s.fmt), e.kind) /\ e.kind # "chmap" /\ ~MetaTooBig(e)) => e.ret = 1      \* (a channel map must also fit a layout the container knows)
 SetMetaPost(s, e) ==
     LET ok == IF e.op = "setstr" THEN e.ret = 0 ELSE e.ret = 1 IN
     IF ok /\ ~s.hw THEN [Adopt(s, ObsOf(e)) EXCEPT !.meta = (MetaKey(e) :> Keep(e)) @@ s.meta] ELSE Adopt(s, ObsOf(e))
@@ -361,7 +364,8 @@ OpenOK(e) ==
       \* C14: embedding / pipes only for the containers that support them (docs: WAV, AIFF, AU; WAVEX shares the WAV parser):
       \* for those a valid file embedded at an offset or arriving through a pipe must open
       [] e.route \in {"emb44", "emb4096", "embz44", "embz4096", "embw44", "pipe"} /\ e.ok = 0
-         /\ ~(e.mode = "r" /\ OpenClass(e) = "written" /\ Major(FileOf(e).fmt) \in {M_WAV, M_WAVEX, M_AIFF, M_AU}) -> OpenFailedOK(e)
+         /\ ~(e.mode = "r" /\ OpenClass(e) = "written" /\ Major(FileOf(e).fmt) \in {M_WAV, M_WAVEX, M_AIFF, M_AU})
+         /\ OpenClass(e) # "foreign" -> OpenFailedOK(e)          \* (a foreign file is vouched for on the routes its scenario uses: all must agree)
       [] OpenClass(e) = "new" -> IF FaultOn(e) \/ CfgRelax THEN (e.ok = 0 => OpenFailedOK(e)) ELSE OpenNewOK(e)
       [] OpenClass(e) = "written" -> OpenWrittenOK(e, FileOf(e))
       [] OpenClass(e) = "foreign" -> OpenForeignOK(e)
